@@ -409,7 +409,12 @@ class DoubleWorld:
         if st["res"]:
             llc.sap[1].snl[b"urn:nfc:sn:x"] = 17
         if st["pre"]:
-            llc.terminate("before the call")
+            self.world.begin(llc, tco, [])
+            self.world.in_action = True        # a wait inside terminate() itself is a hang of the link thread
+            try:
+                llc.terminate("before the call")
+            finally:
+                self.world.end()
         sock = nfc.llcp.Socket(llc, None)
         sock._tco = tco
         return llc, tco, sock
@@ -432,7 +437,10 @@ class DoubleWorld:
     def run(self, st, call, script):
         import nfc.llcp
         T = self.T
-        llc, tco, sock = self.build(st)
+        try:
+            llc, tco, sock = self.build(st)
+        except T.Hang as h:
+            return ["terminate-blocks"], "hang " + str(h.cv), ""
         fn = self.call_fn(st, sock, call)
         self.world.begin(llc, tco, script)
         try:
@@ -564,6 +572,9 @@ def tie_waits(ck, model):
     for (line, real, st, call, script, ev, out), rep in zip(cases, replies):
         waits = sum(1 for e in ev if e[0] == "W")
         nwait += waits
+        if ev == ["terminate-blocks"]:
+            ck.fail("terminate-blocks", "llc.terminate() itself waits on %s (the link thread would hang)" % out, {"state": st})
+            continue
         terminated_at = None
         if st["pre"]:
             terminated_at = -1
@@ -704,9 +715,11 @@ def tie_service(ck, model):
                 client = nfc.llcp.Socket(llc, nfc.llcp.DATA_LINK_CONNECTION)
                 client.bind(33)
                 T.establish(client._tco)
-                llc.terminate("test")
                 world.begin(llc, lsock._tco, [])
                 try:
+                    world.in_action = True
+                    llc.terminate("test")
+                    world.in_action = False
                     if point == "accept":
                         (srv._listen(lsock) if srvname == "snep" else srv.listen(llc, lsock))
                     else:
